@@ -18,8 +18,8 @@ _v, _n = z3.Ints("_v _n")
 def _axioms():
     note("int.to_bytes/from_bytes/bit_length", "from_bytes(to_bytes(v, n, order), order) == v when v >= 0 and bit_length(v) <= 8n, OverflowError otherwise; bit_length(v) >= 0; len(to_bytes(v,n)) == n")
     for tb, fb in ((to_bytes_big, from_bytes_big), (to_bytes_little, from_bytes_little)):
-        solver.add_axiom(f"int-bytes-{tb.name()}", z3.ForAll([_v, _n], z3.Implies(z3.And(_v >= 0, _n >= 0, bit_length(_v) <= 8 * _n), fb(tb(_v, _n)) == _v)))
-    solver.add_axiom("bit_length-nonneg", z3.ForAll([_v], z3.Implies(_v >= 0, bit_length(_v) >= 0)))
+        solver.add_axiom(f"int-bytes-{tb.name()}", z3.ForAll([_v, _n], z3.Implies(z3.And(_v >= 0, _n >= 0, bit_length(_v) <= 8 * _n), fb(tb(_v, _n)) == _v)), trigger=([_v, _n], tb(_v, _n)))
+    solver.add_axiom("bit_length-nonneg", z3.ForAll([_v], z3.Implies(_v >= 0, bit_length(_v) >= 0)), trigger=([_v], bit_length(_v)))
 
 
 def attr_model(it, o, name):
